@@ -9,6 +9,7 @@
    non-raw kinds str / u / b (raw and char literals: correspondence run and totality only). *)
 From Coq Require Import NArith ZArith List Bool.
 From CyVerif Require Import Lib.CInt Model.M_StrLit Proof.P_StrLit.
+From CyVerif Require Model.M_LZSS Model.M_StrTab Proof.P_LZSS Proof.P_StrTab.
 Import ListNotations.
 Open Scope N_scope.
 
@@ -99,6 +100,75 @@ Theorem C10_pipeline_identity : forall cd fx msvc py314 user_macro texts bstrs,
 Proof. exact pipeline_identity. Qed.
 Print Assumptions C10_pipeline_identity.
 
+(* (5) large tables.  The codec is C12's (M_LZSS.compress = Cython/LZSS.py, M_LZSS.dec =
+   __pyx_lzss_decompress); M_StrTab.ref_fields is the field decoding of one back reference as the C
+   code reads it, M_StrTab.form_of the form LZSS.py picks, M_StrTab.lzss_unpack = decompress + the
+   two unpacking loops of module init.
+   split (decode (encode (concat table))) = table for EVERY non-empty table, whatever its size,
+   whatever distances its repeats have, and whether or not the 200-byte saving test keeps the branch *)
+Theorem C10_table_lzss_roundtrip : forall fx texts bstrs,
+  Forall (Forall (fun c => is_scalar c = true)) texts -> Forall bytesN bstrs ->
+  index_ok fx (map utf8_len texts) -> index_ok fx (map nlen bstrs) ->
+  concat (map (flat_map enc_char) texts) ++ concat bstrs <> [] ->
+  exists t c, gen_table fx texts bstrs = GOk t /\ lzss_compress (t_data t) = Some c /\ bytesN c
+              /\ M_StrTab.lzss_unpack t c = Some (texts, bstrs).
+Proof. exact P_StrTab.table_lzss_roundtrip. Qed.
+Print Assumptions C10_table_lzss_roundtrip.
+
+(* one back reference: what LZSS.py writes for (end offset eo, length len) is read by the C field
+   decoding as exactly (form, eo, len) - for all three forms, every offset up to the 16 KiB window
+   and every length; the form fixes the encoded size *)
+Theorem C10_backref_fields_exact : forall eo len bs rest, (len <= 258)%Z ->
+  M_LZSS.encode_match (eo + len)%Z len = Some bs ->
+  exists f, M_StrTab.form_of eo len = Some f
+            /\ M_StrTab.ref_fields (bs ++ rest) = Some (f, eo, len, rest)
+            /\ Z.of_nat (length bs) = M_StrTab.rform_len f /\ P_LZSS.bytes bs.
+Proof. exact P_StrTab.backref_fields_exact. Qed.
+Print Assumptions C10_backref_fields_exact.
+
+(* hence distinct references have distinct encodings: no bit of an offset or length field can be
+   dropped by the decoder *)
+Theorem C10_backref_injective : forall eo len eo' len' bs, (len <= 258)%Z -> (len' <= 258)%Z ->
+  M_LZSS.encode_match (eo + len)%Z len = Some bs -> M_LZSS.encode_match (eo' + len')%Z len' = Some bs ->
+  eo = eo' /\ len = len'.
+Proof. exact P_StrTab.backref_injective. Qed.
+Print Assumptions C10_backref_injective.
+
+(* ref_fields is what C12's model of the C loop does on a back-reference round *)
+Theorem C10_dec_ref_uses_fields : forall dst_len src f eo len rest flags pos outr out_pos,
+  Z.land flags 256 <> 0%Z -> Z.land flags 1 = 0%Z ->
+  M_StrTab.ref_fields src = Some (f, eo, len, rest) ->
+  M_LZSS.dec dst_len src flags pos outr out_pos =
+  M_LZSS.dec_copy dst_len (M_LZSS.dec dst_len rest) flags (pos + M_StrTab.rform_len f)%Z eo (len - 3)%Z outr out_pos.
+Proof. exact P_StrTab.dec_ref_uses_fields. Qed.
+Print Assumptions C10_dec_ref_uses_fields.
+
+(* the thresholds of the reference forms (the generator places repeats on both sides of each):
+   7-bit form up to end offset 127, 2+7-bit form up to 639 with lengths up to 34, 7+7-bit form up to
+   16511 with lengths from 4; beyond the window, or length 3 beyond 639, nothing is stored *)
+Theorem C10_form_ranges : forall eo len f, M_StrTab.form_of eo len = Some f ->
+  match f with
+  | M_StrTab.F7 => (0 <= eo <= 127 /\ 3 <= len)%Z
+  | M_StrTab.F9 => (128 <= eo <= 639 /\ 3 <= len <= 34)%Z
+  | M_StrTab.F14 => (128 <= eo <= 16511 /\ 4 <= len /\ (640 <= eo \/ 35 <= len))%Z
+  end.
+Proof. exact P_StrTab.form_ranges. Qed.
+Print Assumptions C10_form_ranges.
+
+Theorem C10_form_none : forall eo len,
+  (M_StrTab.form_of eo len = None <-> M_LZSS.encode_match (eo + len)%Z len = None)
+  /\ (M_StrTab.form_of eo len = None <-> (len < 3 \/ eo < 0 \/ 16512 <= eo \/ (640 <= eo /\ len = 3))%Z).
+Proof. intros eo len. split; [apply P_StrTab.form_of_encode|apply P_StrTab.form_none]. Qed.
+Print Assumptions C10_form_none.
+
+(* the storage-mode threshold: the lzss branch is emitted, and is the default, exactly when it
+   saves at least 200 bytes *)
+Theorem C10_lzss_stored_iff_saving : forall cd data c, lzss_compress data = Some c ->
+  (In (90, c) (compressions cd data) <-> nlen c + 200 <= nlen data)
+  /\ (default_compression (compressions cd data) = 90%Z <-> nlen c + 200 <= nlen data).
+Proof. exact P_StrTab.lzss_stored_iff_saving. Qed.
+Print Assumptions C10_lzss_stored_iff_saving.
+
 (* non-vacuity: a str body with every escape kind decodes to the specified value (a lone
    surrogate and an octal escape above 0o377 included); its value goes through the
    unicode_escape path; a table with an empty text, a NUL byte string and an astral character is
@@ -121,3 +191,14 @@ Proof.
     + now rewrite N.eqb_refl.
   - eexists. split; [vm_compute; reflexivity|]. vm_compute. reflexivity.
 Qed.
+
+(* non-vacuity of (5): the reference 8320 bytes back (the first end offset that needs bit 13 of the
+   7+7-bit field) is written as 128 192 45 and read back as (F14, 8320, 48); 16511 is the last
+   storable end offset, 16512 is not stored *)
+Example C10_nonvacuous_farref :
+  M_LZSS.encode_match (8320 + 48)%Z 48%Z = Some [128; 192; 45]%Z
+  /\ M_StrTab.ref_fields [128; 192; 45]%Z = Some (M_StrTab.F14, 8320, 48, [])%Z
+  /\ M_StrTab.form_of 16511%Z 4%Z = Some M_StrTab.F14 /\ M_StrTab.form_of 16512%Z 4%Z = None
+  /\ M_StrTab.form_of 639%Z 34%Z = Some M_StrTab.F9 /\ M_StrTab.form_of 640%Z 34%Z = Some M_StrTab.F14
+  /\ M_StrTab.form_of 639%Z 35%Z = Some M_StrTab.F14 /\ M_StrTab.form_of 127%Z 258%Z = Some M_StrTab.F7.
+Proof. repeat split; vm_compute; reflexivity. Qed.
